@@ -412,6 +412,12 @@ package inference
 //@ define (edgesAreDiff r n o) (and (omOK r) (fresh r)
 //@    (forall ((k primitiveSite)) (= (mapin r.inner k) (and (mapin n.inner k) (not (mapin o.inner k)))))
 //@    (forall ((k primitiveSite)) (=> (mapin r.inner k) (= (. (mapget r.inner k) Value) (. (mapget n.inner k) Value)))))
+//@ define (isEdgeDiff r n o) (and
+//@    (forall ((k primitiveSite)) (= (mapin r.inner k) (and (mapin n.inner k) (not (mapin o.inner k)))))
+//@    (forall ((k primitiveSite)) (=> (mapin r.inner k) (= (. (mapget r.inner k) Value) (. (mapget n.inner k) Value)))))
+//@ define (noNewEdges n o) (and
+//@    (forall ((k primitiveSite)) (=> (mapin (. (nImplicants n) inner) k) (mapin (. (nImplicants o) inner) k)))
+//@    (forall ((k primitiveSite)) (=> (mapin (. (nImplicates n) inner) k) (mapin (. (nImplicates o) inner) k))))
 //@ func inferredValDiff
 //@ prop C06 C03
 //@ define (keptSinceCall m) (and (= (deref m) (atcall (deref m))) (= (mapdom m.inner) (atcall (mapdom m.inner))) (= (mapvals m.inner) (atcall (mapvals m.inner)))
@@ -436,6 +442,10 @@ package inference
 //@ ensures undetermined-diff-implicants (=> (and (isUndet newVal) (isUndet oldVal)) (edgesAreDiff (nImplicants result0) (nImplicants newVal) (nImplicants oldVal)))
 //@ ensures undetermined-diff-implicates (=> (and (isUndet newVal) (isUndet oldVal)) (edgesAreDiff (nImplicates result0) (nImplicates newVal) (nImplicates oldVal)))
 //@ ensures undetermined-diff-flag (=> (and (isUndet newVal) (isUndet oldVal)) (= result1 (or (> (len (. (nImplicants result0) Pairs)) 0) (> (len (. (nImplicates result0) Pairs)) 0))))
+//@ ensures no-flag-means-no-new-edges (=> (and (isUndet newVal) (isUndet oldVal) (not result1)) (noNewEdges newVal oldVal))
+//@ ensures flag-means-some-new-edge (=> (and (isUndet newVal) (isUndet oldVal) result1)
+//@    (or (and (> (len (. (nImplicants result0) Pairs)) 0) (mapin (. (nImplicants result0) inner) (keyAt (nImplicants result0) 0)))
+//@        (and (> (len (. (nImplicates result0) Pairs)) 0) (mapin (. (nImplicates result0) inner) (keyAt (nImplicates result0) 0)))))
 //@ ensures nothing-old-touched (oldStateKept (nImplicants oldVal))
 //@ ensures old-values-untouched (forall ((u *UndeterminedVal)) (=> (allocated-before u) (= (deref u) (old (deref u)))))
 
@@ -533,6 +543,20 @@ package inference
 //@ ensures only-chosen-known-sites (=> (old (> (len i.mapping.Pairs) 0)) (forall ((s primitiveSite)) (=> (xHas (local exported) s) (and (imHas i s) (mtrue (local sitesToExport) s)))))
 //@ ensures new-or-newly-determined-sites-exported-whole (=> (old (> (len i.mapping.Pairs) 0)) (forall ((s primitiveSite)) (=> (and (imHas i s) (mustExportWhole i (local sitesToExport) s (imVal i s))) (and (xHas (local exported) s) (= (xVal (local exported) s) (imVal i s))))))
 //@ ensures unchosen-or-unchanged-determined-sites-not-exported (=> (old (> (len i.mapping.Pairs) 0)) (forall ((s primitiveSite)) (=> (and (imHas i s) (mustNotExport i (local sitesToExport) s (imVal i s))) (not (xHas (local exported) s)))))
+//@ ensures undetermined-sites-exported-as-exactly-their-new-edges (=> (old (> (len i.mapping.Pairs) 0)) (forall ((s primitiveSite)) (=> (and (imHas i s) (xHas (local exported) s) (up i s) (isUndet (imVal i s)))
+//@    (and (isUndet (xVal (local exported) s)) (not (= (undet (xVal (local exported) s)) nil))
+//@         (isEdgeDiff (nImplicants (xVal (local exported) s)) (nImplicants (imVal i s)) (nImplicants (upVal i s)))
+//@         (isEdgeDiff (nImplicates (xVal (local exported) s)) (nImplicates (imVal i s)) (nImplicates (upVal i s)))))))
+//@ ensures undetermined-sites-left-out-have-no-new-edges (=> (old (> (len i.mapping.Pairs) 0)) (forall ((s primitiveSite)) (=> (and (imHas i s) (mtrue (local sitesToExport) s) (up i s) (isUndet (imVal i s)) (isUndet (upVal i s)) (not (xHas (local exported) s)))
+//@    (noNewEdges (imVal i s) (upVal i s)))))
+//@ assert after:inferredValDiff old-edge-pair-objects-kept (forall ((p (typeof (omPair (implOf i) 0)))) (=> (atcall (allocated p)) (= (deref p) (atcall (deref p)))))
+//@ loop 0 invariant edge-diffs (and
+//@    (forall ((s primitiveSite)) (=> (and (xHas exported s) (up i s) (isUndet (imVal i s)))
+//@       (and (isUndet (xVal exported s)) (not (= (undet (xVal exported s)) nil))
+//@            (isEdgeDiff (nImplicants (xVal exported s)) (nImplicants (imVal i s)) (nImplicants (upVal i s)))
+//@            (isEdgeDiff (nImplicates (xVal exported s)) (nImplicates (imVal i s)) (nImplicates (upVal i s))))))
+//@    (forall ((j Int)) (=> (and (<= 0 j) (<= j rangeindex) (mtrue sitesToExport (siteAt i j)) (up i (siteAt i j)) (isUndet (valAtIdx i j)) (isUndet (upVal i (siteAt i j))) (not (xHas exported (siteAt i j))))
+//@       (noNewEdges (valAtIdx i j) (upVal i (siteAt i j))))))
 //@ loop 0 invariant exporting (and (imOK i) (upOK i) (mappingKept i) (fresh exported) (omOK exported) (not (= exported i.mapping)) (or (isnil exported.Pairs) (fresh exported.Pairs)) (fresh exported.inner)
 //@    (forall ((k primitiveSite)) (=> (xHas exported k) (fresh (mapget exported.inner k))))
 //@    (= (dyn count) 0) (<= -1 rangeindex) (< rangeindex (len i.mapping.Pairs))
